@@ -28,11 +28,130 @@ Proof.
   destruct (Z.ltb_spec off 0) as [Ho|Ho]; destruct (Z.ltb_spec len 0) as [Hl|Hl]; cbn [andb orb negb].
   all: repeat (progress (zb; cbn [andb orb negb])); try reflexivity.
   all: try (exfalso; lia).
-  all: do 3 f_equal; lia.
+  all: try (do 3 f_equal; lia).
+  all: f_equal; match goal with |- [] = firstn (Z.to_nat ?k) _ => replace k with 0 by lia; reflexivity end.
 Qed.
 
 Lemma substr_never_panics s off len : substr s off len <> Panic.
 Proof. rewrite substr_ok. discriminate. Qed.
+
+(* ---------- Substr on 64-bit ints ---------- *)
+
+Lemma wrap64_id x : int64 x -> wrap64 x = x.
+Proof.
+  unfold int64, minint, maxint, wrap64. intros H.
+  rewrite Z.mod_small by lia. lia.
+Qed.
+
+Lemma wrap64_over x : maxint < x <= maxint + maxint + 1 -> wrap64 x = x - 18446744073709551616.
+Proof.
+  unfold maxint, wrap64. intros H.
+  replace (x + 9223372036854775808) with ((x - 9223372036854775808) + 1 * 18446744073709551616) by lia.
+  rewrite Z.mod_add by lia. rewrite Z.mod_small by lia. lia.
+Qed.
+
+Lemma abs_go64_spec x : int64 x ->
+  (x = minint /\ abs_go64 x = minint) \/ (x <> minint /\ abs_go64 x = Z.abs x).
+Proof.
+  unfold int64, abs_go64. intros H. destruct (Z.eq_dec x minint) as [E|E].
+  - left. split; [exact E|]. subst x. vm_compute. reflexivity.
+  - right. split; [exact E|]. unfold minint, maxint in *.
+    destruct (Z.ltb_spec x 0); [rewrite wrap64_id by (unfold int64, minint, maxint; lia)|]; lia.
+Qed.
+
+
+Lemma wrap64_spec t :
+  - 18446744073709551616 <= t < 18446744073709551616 ->
+  (minint <= t <= maxint /\ wrap64 t = t) \/ (maxint < t /\ wrap64 t = t - 18446744073709551616)
+  \/ (t < minint /\ wrap64 t = t + 18446744073709551616).
+Proof.
+  intros H. unfold minint, maxint.
+  destruct (Z_lt_le_dec t (-9223372036854775808)) as [H1|H1].
+  - right. right. split; [exact H1|]. unfold wrap64.
+    replace (t + 9223372036854775808) with ((t + 9223372036854775808 + 18446744073709551616) + (-1) * 18446744073709551616) by lia.
+    rewrite Z.mod_add by lia. rewrite Z.mod_small by lia. lia.
+  - destruct (Z_lt_le_dec 9223372036854775807 t) as [H2|H2].
+    + right. left. split; [exact H2|]. apply wrap64_over. unfold maxint. lia.
+    + left. split; [lia|]. apply wrap64_id. unfold int64, minint, maxint. lia.
+Qed.
+
+Ltac no_wrap t := lazymatch t with context [wrap64 _] => fail | _ => idtac end.
+Ltac elim_wrap :=
+  repeat match goal with
+  | |- context [wrap64 ?t] =>
+      no_wrap t;
+      let H := fresh "Hw" in let E := fresh "Ew" in
+      destruct (wrap64_spec t ltac:(unfold minint, maxint in *; lia)) as [[H E]|[[H E]|[H E]]];
+      rewrite E in *; unfold minint, maxint in H; try lia
+  end.
+
+(* Substr (repaired) on Go ints, completely: the rule's byte range for EVERY offset and length *)
+Lemma substr_go_ok s off len :
+  int64 off -> int64 len -> blen s <= maxint ->
+  substr_go s off len = Ok (substr_ref s off len).
+Proof.
+  intros Ho Hl Hn. pose proof (blen_nonneg s) as Hn0.
+  unfold substr_go, substr_ref, substr_stop, substr_start, abs_go64, slice, in_range, byte_range.
+  change (slen s) with (blen s). set (n := blen s) in *.
+  unfold int64, minint, maxint in *.
+  destruct (Z.ltb_spec off 0) as [Hoff|Hoff]; destruct (Z.ltb_spec len 0) as [Hlen|Hlen]; cbn [andb orb negb].
+  all: try elim_wrap.
+  all: repeat (progress (zb; cbn [andb orb negb]; try elim_wrap)); try reflexivity.
+  all: try (exfalso; lia).
+  all: try (do 3 f_equal; lia).
+  all: f_equal; match goal with |- [] = firstn (Z.to_nat ?k) _ => replace k with 0 by lia; reflexivity end.
+Qed.
+
+Lemma substr_go_never_panics s off len :
+  int64 off -> int64 len -> blen s <= maxint -> substr_go s off len <> Panic.
+Proof. intros Ho Hl Hn. rewrite substr_go_ok by assumption. discriminate. Qed.
+
+(* the calls made by splitStringWithDelimiter (offset >= 0, length >= 0,
+   offset + length <= len(str) + 2) are ints: there the unbounded arithmetic
+   of [substr] is exactly what the 64-bit code computes *)
+Lemma substr_go_internal s off len :
+  blen s + 2 <= maxint -> 0 <= off -> 0 <= len -> off + len <= blen s + 2 ->
+  substr_go s off len = substr s off len.
+Proof.
+  intros Hn Ho Hl Hs. pose proof (blen_nonneg s).
+  rewrite substr_go_ok, substr_ok; try reflexivity; unfold int64, minint, maxint in *; lia.
+Qed.
+
+(* ----- the code shipped before /repo 6d6c881 ([substr_go_unrepaired]) ----- *)
+
+Lemma substr_go_unrepaired_exact s off len :
+  int64 off -> int64 len -> blen s <= maxint ->
+  substr_go_unrepaired s off len = Ok (if substr_overflows s off len then [] else substr_ref s off len).
+Proof.
+  intros Ho Hl Hn. pose proof (blen_nonneg s) as Hn0.
+  unfold substr_go_unrepaired, substr_overflows, substr_ref, substr_stop, substr_start, abs_go64, slice, in_range, byte_range.
+  change (slen s) with (blen s). set (n := blen s) in *.
+  unfold int64, minint, maxint in *.
+  destruct (Z.ltb_spec off 0) as [Hoff|Hoff]; destruct (Z.ltb_spec len 0) as [Hlen|Hlen]; cbn [andb orb negb].
+  all: try elim_wrap.
+  all: repeat (progress (zb; cbn [andb orb negb])); try reflexivity.
+  all: try (exfalso; lia).
+  all: try (do 3 f_equal; lia).
+  all: f_equal; match goal with |- [] = firstn (Z.to_nat ?k) _ => replace k with 0 by lia; reflexivity end.
+Qed.
+
+(* when the sum wrapped the shipped code returned the empty string although the
+   PHP rule selects the non-empty rest of the string *)
+Lemma substr_go_unrepaired_overflow_loses s off len :
+  int64 off -> int64 len -> blen s <= maxint -> substr_overflows s off len = true ->
+  substr_go_unrepaired s off len = Ok [] /\ substr_ref s off len <> [].
+Proof.
+  intros Ho Hl Hn Hv. split; [rewrite substr_go_unrepaired_exact by assumption; rewrite Hv; reflexivity|].
+  unfold substr_overflows in Hv. unfold substr_ref, substr_stop. change (slen s) with (blen s) in *.
+  set (n := blen s) in *. set (a := substr_start n off) in *.
+  apply andb_prop in Hv. destruct Hv as [Hv H4]. apply andb_prop in Hv. destruct Hv as [Hv H3].
+  apply andb_prop in Hv. destruct Hv as [H1 H2].
+  unfold maxint in *.
+  destruct (Z.ltb_spec len 0); [lia|]. rewrite Z.min_l by lia.
+  destruct (Z.leb_spec 0 a); [|lia]. destruct (Z.leb_spec a n); [|lia]. destruct (Z.leb_spec n n); [|lia].
+  cbn [andb]. intros E. apply (f_equal (@length Z)) in E. unfold byte_range in E.
+  rewrite firstn_length, skipn_length in E. cbn [length] in E. unfold n, blen in *. lia.
+Qed.
 
 (* ---------- slices ---------- *)
 
@@ -526,3 +645,113 @@ Lemma capitalize_runes r rs :
 Proof. intros H. rewrite capitalize_decode, decode_encode by exact H. reflexivity. Qed.
 
 End CaseMap.
+
+(* ---------- the decision procedures of C15_Spec.v used by the property checker ---------- *)
+
+Lemma prefixb_is_prefix p s : prefixb p s = is_prefix p s.
+Proof. reflexivity. Qed.
+
+Lemma wrappedb_iff s t : wrappedb s t = true <-> wrapped s t.
+Proof.
+  unfold wrappedb, wrapped. rewrite !andb_true_iff, !prefixb_is_prefix, !is_prefix_iff, Z.leb_le. split.
+  - intros [[Hl [r Hr]] [q Hq]].
+    apply (f_equal (@rev Z)) in Hq. rewrite rev_involutive, rev_app_distr, rev_involutive in Hq.
+    (* s = t ++ r = rev q ++ t, |t| <= |rev q| *)
+    assert (Hlen : (length t <= length (rev q))%nat).
+    { pose proof (f_equal (@length Z) Hq) as E. rewrite app_length in E. unfold slen in Hl. lia. }
+    rewrite Hr in Hq. apply app_eq_app in Hq. destruct Hq as [l [[Ea Eb]|[Ea Eb]]].
+    + rewrite Ea in Hlen. rewrite app_length in Hlen.
+      assert (l = []) by (apply length_zero_iff_nil; lia). subst l.
+      rewrite app_nil_r in Ea. cbn [app] in Eb. exists []. cbn [app]. rewrite Hr, <- Eb. reflexivity.
+    + exists l. rewrite Hr, Eb. reflexivity.
+  - intros [m ->]. repeat split.
+    + unfold slen. rewrite !app_length. lia.
+    + exists (m ++ t). reflexivity.
+    + exists (rev m ++ rev t). rewrite !rev_app_distr, <- app_assoc. reflexivity.
+Qed.
+
+(* Unwrap, completely: the decision [wrappedb] and the middle bytes *)
+Lemma unwrap_spec s t : unwrap s t = Ok (unwrap_ref s t).
+Proof.
+  unfold unwrap_ref. destruct (wrappedb s t) eqn:E.
+  - apply wrappedb_iff in E. destruct E as [m Hm]. rewrite (unwrap_wrapped s t m Hm).
+    destruct (wrapped_facts s t m Hm) as (_ & _ & _ & H4). rewrite <- H4. reflexivity.
+  - apply unwrap_unwrapped_unchanged. intros W. apply wrappedb_iff in W. congruence.
+Qed.
+
+Lemma rep_app tok a b : rep tok (a + b) = rep tok a ++ rep tok b.
+Proof. unfold rep. rewrite repeat_app, concat_app. reflexivity. Qed.
+
+Lemma firstn_app_le {A} (l1 l2 : list A) n : (n <= length l1)%nat -> firstn n (l1 ++ l2) = firstn n l1.
+Proof.
+  intros H. rewrite firstn_app. replace (n - length l1)%nat with O by lia. cbn. apply app_nil_r.
+Qed.
+
+Lemma rep_prefixb_iff p tok : tok <> [] -> (rep_prefixb p tok = true <-> rep_prefix p tok).
+Proof.
+  intros Ht. unfold rep_prefixb, rep_prefix. rewrite zlist_eqb_eq.
+  assert (Hlen : forall k, (k <= length (rep tok k))%nat).
+  { intros k. rewrite rep_length. destruct tok; [congruence|]. cbn [length]. nia. }
+  split.
+  - intros E. exists (length p), (skipn (length p) (rep tok (length p))). rewrite E at 2. symmetry. apply firstn_skipn.
+  - intros (k & rest & E). destruct (le_lt_dec (length p) k) as [Hk|Hk].
+    + replace k with (length p + (k - length p))%nat in E by lia. rewrite rep_app in E.
+      pose proof (f_equal (firstn (length p)) E) as F.
+      rewrite firstn_app_le in F by apply Hlen. rewrite firstn_app_le in F by lia.
+      rewrite firstn_all in F. symmetry. exact F.
+    + replace (length p) with (k + (length p - k))%nat at 2 by lia. rewrite rep_app, E, <- app_assoc.
+      rewrite firstn_app_le by lia. rewrite firstn_all. reflexivity.
+Qed.
+
+(* ---------- arbitrary byte strings (invalid UTF-8 included) ---------- *)
+
+Definition bytes (s : list Z) : Prop := Forall (fun b => 0 <= b < 256) s.
+
+Lemma decode_w_aux_valid s : bytes s -> forall skip, Forall (fun rw => valid_rune (fst rw)) (decode_w_aux skip s).
+Proof.
+  induction 1 as [|b t Hb Ht IH]; intros skip; [constructor|].
+  cbn [decode_w_aux]. destruct skip as [|k]; [|apply IH].
+  constructor; [|apply IH]. apply decode1_valid. constructor; assumption.
+Qed.
+
+(* whatever the bytes, the range loop only produces scalar values (U+FFFD for every byte that
+   does not start a well-formed sequence) *)
+Lemma decode_valid s : bytes s -> Forall valid_rune (decode s).
+Proof.
+  intros H. unfold decode, decode_w. pose proof (decode_w_aux_valid s H 0%nat) as F.
+  induction F as [|x l Hx _ IH]; [constructor|]. cbn [map]. constructor; assumption.
+Qed.
+
+(* re-encoding what the range loop saw and decoding again changes nothing: [encode (decode s)]
+   is the sanitised string (strings.ToValidUTF8(s, "�") byte by byte) *)
+Lemma decode_sanitised s : bytes s -> decode (encode (decode s)) = decode s.
+Proof. intros H. apply decode_encode, decode_valid, H. Qed.
+
+Lemma wrap_all_rune_bytes s t :
+  bytes s ->
+  wrap_all_rune s t = concat (map (fun r => t ++ encode_rune r ++ t) (decode s))
+  /\ Forall valid_rune (decode s)
+  /\ wrap_all_rune s t = wrap_all_rune (encode (decode s)) t.
+Proof.
+  intros H. split; [reflexivity|]. split; [apply decode_valid, H|].
+  unfold wrap_all_rune. rewrite decode_sanitised by exact H. reflexivity.
+Qed.
+
+Lemma reverse_str_bytes s :
+  bytes s -> reverse_str s = encode (rev (decode s)) /\ reverse_str s = reverse_str (encode (decode s)).
+Proof.
+  intros H. split; [apply reverse_str_decode|]. rewrite !reverse_str_decode, decode_sanitised by exact H. reflexivity.
+Qed.
+
+(* Pad* never panic with a non-empty token *)
+Lemma pad_never_panics s size tok :
+  tok <> [] -> pad s size tok <> Panic /\ pad_left s size tok <> Panic /\ pad_right s size tok <> Panic.
+Proof.
+  intros Ht. destruct (Z_le_gt_dec size (blen s)) as [H|H].
+  - rewrite (proj1 (pad_spec s size tok Ht) H), (proj1 (pad_left_spec s size tok Ht) H),
+      (proj1 (pad_right_spec s size tok Ht) H). repeat split; discriminate.
+  - destruct (proj2 (pad_spec s size tok Ht) ltac:(lia)) as (l & r & E & _).
+    destruct (proj2 (pad_left_spec s size tok Ht) ltac:(lia)) as (p & E1 & _).
+    destruct (proj2 (pad_right_spec s size tok Ht) ltac:(lia)) as (q & E2 & _).
+    rewrite E, E1, E2. repeat split; discriminate.
+Qed.
